@@ -207,6 +207,17 @@ func WaitDone(done <-chan struct{}, watchdog time.Duration) (WaitResult, []G) {
 		}
 	}
 	start := time.Now()
+	// A dump stops the world and costs time proportional to the number of goroutines of the process
+	// (goroutines of node bodies that earlier FAILED runs left blocked on a send stay around): most runs
+	// finish within a few milliseconds, so wait that long before the first dump, and never spend more
+	// than about a third of the waiting time on dumping. Only the latency of a Stuck verdict changes.
+	first := time.NewTimer(2 * time.Millisecond)
+	select {
+	case <-done:
+		first.Stop()
+		return Finished, nil
+	case <-first.C:
+	}
 	streak := 0
 	sleep := 20 * time.Microsecond
 	for {
@@ -219,7 +230,11 @@ func WaitDone(done <-chan struct{}, watchdog time.Duration) (WaitResult, []G) {
 		if sleep < 2*time.Millisecond {
 			sleep *= 2
 		}
+		t0 := time.Now()
 		gs := Dump()
+		if d := 2 * time.Since(t0); sleep < d {
+			sleep = d
+		}
 		select {
 		case <-done:
 			return Finished, nil
